@@ -119,6 +119,11 @@ static int delta14(int s, int in) {
     }
     return s;
 }
+static const char *inlabel(int in) {
+    static char b[24];
+    if (in == 0x00 || in == 0x02 || in == 0x08 || in == -1 || in == -2 || in == -3) snprintf(b, sizeof b, "input=%d", in); else snprintf(b, sizeof b, "input=other");
+    return b;
+}
 static automata *enter14(int s) {
     automata *a = init_automata_mapping();
     if (!a) vf_harness_error("init_automata_mapping failed");
@@ -160,7 +165,7 @@ static void step14(int code) {
     vf_outcome(vf_hash64(&got, sizeof got, (uint64_t)(code / 8)));
     if (A.verbose) printf("    %s --input %d (elapsed %ld s, timeout %ld s)--> %s\n", QNAME[s], in, el, t, got < 0 ? "?" : QNAME[got]);
     if (got != exp1 && got != exp2) {
-        char sig[120]; snprintf(sig, sizeof sig, "mapping:(%s,input=%d,%s)", QNAME[s], in, timed_out ? "expired" : "in-time");
+        char sig[120]; snprintf(sig, sizeof sig, "mapping:(%s,%s,%s)", QNAME[s], inlabel(in), timed_out ? "expired" : "in-time");
         vf_violation(sig, "mapping engine in %s, %ld s after its last input (timeout %ld s), input %d: goes to %s, the state machine demands %s", QNAME[s], el, t, in, got < 0 ? "an unknown state" : QNAME[got], QNAME[exp1]);
     }
 }
@@ -189,7 +194,7 @@ static void check_step14(int in, const char *what) {
     int timed_out = (s != Q_IDLE && M14.in_age > t);
     int exp1 = timed_out ? Q_IDLE : delta14(s, in), exp2 = (timed_out && in == 0x00) ? Q_CMD : exp1;
     if (got != exp1 && got != exp2) {
-        char sig[120]; snprintf(sig, sizeof sig, "mapping:(%s,input=%d,%s)", QNAME[s], in, timed_out ? "expired" : "in-time");
+        char sig[120]; snprintf(sig, sizeof sig, "mapping:(%s,%s,%s)", QNAME[s], inlabel(in), timed_out ? "expired" : "in-time");
         vf_violation(sig, "%s: mapping engine in %s, %u s after its last input, input %d: goes to %s, demanded %s", what, QNAME[s], M14.in_age, in, got < 0 ? "an unknown state" : QNAME[got], QNAME[exp1]);
         got = exp1;
     }
